@@ -380,6 +380,14 @@ def run_unit(vu, scratch_dir, prop):
         text, ranges, exlog = render(vu)
     except Undecided as e:
         return [mk(vu.uid + ".*", "extracted", "", "undecided", reason=str(e))]
+    # vacuity / plumbing canary: a deliberately false lemma that Verus must reject in this very file
+    marker = "} // verus!"
+    if marker in text:
+        cut = text.rindex(marker)
+        first = text.count("\n", 0, cut) + 1
+        canary = "pub proof fn verif_canary_must_fail(x: int)\n    requires x > 0,\n    ensures x > 1,\n{\n}\n"
+        text = text[:cut] + canary + text[cut:]
+        ranges.append((first, first + 4, vu.uid + ".<canary>", "canary", "verif_canary_must_fail"))
     os.makedirs(scratch_dir, exist_ok=True)
     path = os.path.join(scratch_dir, "%s.rs" % vu.uid.lower())
     write(path, text)
@@ -395,7 +403,7 @@ def run_unit(vu, scratch_dir, prop):
         wall += wall2
         verr, hard = parse_errors(err, path)
     vr = (js or {}).get("verification-results", {})
-    if js is None or hard or vr.get("encountered-vir-error") or (not verr and not vr.get("success")):
+    if js is None or hard or vr.get("encountered-vir-error"):
         why = (hard[0] if hard else err[-1500:]) or "verus produced no result"
         return [mk(r[2], r[3], r[4], "undecided", reason="verus could not process the unit: " + why) for r in ranges]
     n_verified = vr.get("verified", 0)
@@ -413,6 +421,14 @@ def run_unit(vu, scratch_dir, prop):
         bad.setdefault(owner or (vu.uid + ".<template>"), []).append((kind, line, msg))
     smt = (js.get("times-ms", {}) or {}).get("smt", {}).get("total", 0) / 1000.0 if js else 0
     for (a, b, oid, k, fn) in ranges:
+        if k == "canary":
+            if oid in bad:
+                g = mk(oid, k, fn, "guard-ok", checks=1)
+            else:
+                g = mk(oid, k, fn, "undecided", reason="the deliberately false canary lemma was NOT rejected by Verus")
+            g["kind"] = "canary"
+            res.append(g)
+            continue
         if oid in bad:
             kinds = bad[oid]
             if all(kk == "rlimit" for kk, _, _ in kinds):
@@ -428,7 +444,7 @@ def run_unit(vu, scratch_dir, prop):
         kk, line, msg = bad[vu.uid + ".<template>"][0]
         res.append(mk(vu.uid + ".<template>", "lemma", "", "undecided", reason="verification error outside any tracked function: " + msg[:400]))
     # vacuity guard: verus must have verified at least as many items as we track
-    if not bad and n_verified < len(ranges):
+    if not [o for o in bad if not o.endswith(".<canary>")] and n_verified < len(ranges) - 1:
         res.append(mk(vu.uid + ".<count>", "lemma", "", "undecided", reason="verus verified %d items, expected >= %d" % (n_verified, len(ranges))))
     for r in res:
         r["extraction"] = exlog
